@@ -35,7 +35,7 @@ MACHINES = {
 # runs per tier (override with VERIF_RUNS) and wall-clock safety caps
 TIERS = {
     "C08": {"quick": (4000, 240), "thorough": (160000, 3000)},
-    "C13": {"quick": (10000, 240), "thorough": (400000, 3000)},
+    "C13": {"quick": (8000, 240), "thorough": (300000, 3000)},
     "C15": {"quick": (2000, 240), "thorough": (100000, 3000)},
     "C16": {"quick": (12000, 240), "thorough": (600000, 3000)},
     "C14": {"quick": (2500, 300), "thorough": (100000, 3600)},
@@ -47,16 +47,29 @@ def machine(prop):
 
 
 def run_index(prop, seed, index, keep_case=False, keep_log=False):
-    """One simulated run: a pure function of (code, prop, seed, index)."""
+    """One simulated run: a pure function of (code, prop, seed, index).
+    Executed in a pristine process (fork of the run zygote)."""
+    return common.run_isolated(
+        "sim.driver", "run_index_local", prop, seed, index, keep_case, keep_log
+    )
+
+
+def run_index_local(prop, seed, index, keep_case=False, keep_log=False):
     mach = machine(prop)
     rng = rng_for(seed, prop, index)
     case = mach.gen_case(rng)
     case["seed"] = seed
     case["run"] = index
-    return run_case(prop, case, keep_case=keep_case, keep_log=keep_log)
+    return run_case_local(prop, case, keep_case=keep_case, keep_log=keep_log)
 
 
 def run_case(prop, case, keep_case=False, keep_log=False):
+    return common.run_isolated(
+        "sim.driver", "run_case_local", prop, case, keep_case, keep_log
+    )
+
+
+def run_case_local(prop, case, keep_case=False, keep_log=False):
     mach = machine(prop)
     log = EventLog(keep=keep_log)
     stats = Counter()
@@ -86,7 +99,7 @@ def still_fails(prop, case, invariant):
     try:
         if hasattr(mach, "valid_case") and not mach.valid_case(case):
             return False
-        viol = mach.exec_case(case, EventLog(), Counter())
+        viol = run_case(prop, case)["violation"]
     except Exception:  # pylint: disable=broad-except
         return False
     return viol is not None and viol["invariant"] == invariant
@@ -144,6 +157,9 @@ def replay_file(path):
         from sim import c09
 
         return c09.replay(doc, path)
+    if hasattr(machine(prop), "prepare"):
+        common.PRELOAD.append((MACHINES[prop], "prepare"))
+    common.start_zygotes()
     out = run_case(prop, doc["case"])
     viol = out["violation"]
     if viol is None:
@@ -251,13 +267,14 @@ def check(prop, tier):
     t0 = time.time()
     common.import_statham()
     mach = machine(prop)
+    if hasattr(mach, "prepare"):
+        common.PRELOAD.append((MACHINES[prop], "prepare"))
+    common.start_zygotes()  # before this process uses the library at all
     seed = base_seed()
     n_runs, cap_s = TIERS[prop][tier]
     n_runs = int(os.environ.get("VERIF_RUNS", n_runs))
     cap_s = int(os.environ.get("VERIF_CAP_S", cap_s))
-    seam_ok = common.seam_probe()
-    if hasattr(mach, "prepare"):
-        mach.prepare()
+    seam_ok = common.run_isolated("sim.common", "seam_probe")
     sample_every = max(1, n_runs // 3)
     results, errors, skipped = run_pool(
         _worker((prop, seed, sample_every)),
@@ -321,6 +338,12 @@ def check(prop, tier):
         out = run_case(prop, small)
         if out["violation"] is None or out["violation"]["invariant"] != invariant:
             small, out = res["case"], run_case(prop, res["case"])
+        if out["violation"] is None:
+            print(
+                f"HARNESS-ERROR: {prop} run {index} violated {invariant} in its worker but not when "
+                "re-executed in the parent process: outcome depends on process history"
+            )
+            return 2
         sig = mach.signature(small, out["violation"])
         doc = {
             "property": prop,
@@ -395,9 +418,9 @@ def check(prop, tier):
 
 def digest_cmd(prop, indices):
     common.import_statham()
-    mach = machine(prop)
-    if hasattr(mach, "prepare"):
-        mach.prepare()
+    if hasattr(machine(prop), "prepare"):
+        common.PRELOAD.append((MACHINES[prop], "prepare"))
+    common.start_zygotes()
     seed = base_seed()
     out = {}
     for index in indices:
